@@ -190,6 +190,10 @@ func runCase(run *vf.Run, raw json.RawMessage, dir string) *vf.Result {
 			if rng.Intn(3) != 0 && !st.upload() {
 				break
 			}
+			if err := e.Arch.Scan(e.RepPath); err != nil {
+				res.Violate("l0-file-invalid", "%v", err)
+				return res
+			}
 			before := st.listing()
 			hadSnap := len(oracle.ListLevel(e.RepPath, 9)) > 0
 			var err error
@@ -271,17 +275,17 @@ func runCase(run *vf.Run, raw json.RawMessage, dir string) *vf.Result {
 // upload = SyncAndWait + archive of new level-0 files + planting of ages.
 func (st *state) upload() bool {
 	e := st.e
-	if err := e.LS.SyncAndWait(e.Ctx); err != nil {
-		e.Logf("SyncAndWait err=%v", err)
+	serr := e.LS.SyncAndWait(e.Ctx)
+	if serr != nil {
+		e.Logf("SyncAndWait err=%v", serr)
 		st.res.Count("sync_wait_failed", 1)
-		return false
 	}
 	if err := e.Arch.Scan(e.RepPath); err != nil {
 		st.res.Violate("l0-file-invalid", "%v", err)
 		return false
 	}
 	st.plantNew()
-	return true
+	return serr == nil
 }
 
 type listing map[string]oracle.FileRef
@@ -410,6 +414,10 @@ func (st *state) retentionPass(ctx context.Context, i int) (kind string, violate
 		st.replant(2)
 	}
 	st.agesObserved()
+	if err := e.Arch.Scan(e.RepPath); err != nil {
+		res.Violate("l0-file-invalid", "%v", err)
+		return "", true, nil
+	}
 	before := st.listing()
 	snaps := oracle.ListLevel(e.RepPath, 9)
 	hadSnap := len(snaps) > 0
@@ -452,13 +460,13 @@ func (st *state) retentionPass(ctx context.Context, i int) (kind string, violate
 		var floor int
 		if hadSnap {
 			sOld, sNew := snaps[0].Max, snaps[len(snaps)-1].Max
-			floor = []int{0, 1 + rng.Intn(sNew), sOld, sOld + 1, sNew, sNew + 1, sNew + 1}[rng.Intn(7)]
+			floor = []int{0, 1 + rng.Intn(sNew), sOld, sOld + 1, sNew, sNew + 1, sNew + 1, sNew + 1}[rng.Intn(8)]
 		} else {
 			floor = rng.Intn(2)
 		}
-		lvl := rng.Intn(st.s.Levels + 1)
-		if rng.Intn(3) != 0 && lvl == 0 {
-			lvl = 1
+		lvl := 0
+		if rng.Intn(3) != 0 {
+			lvl = 1 + rng.Intn(st.s.Levels)
 		}
 		kind = fmt.Sprintf("retention-by-txid-l%d", lvl)
 		if st.comp != nil {
